@@ -106,13 +106,14 @@ class StubSyncObj(object):
 
 
 class LockModel(object):
-    def __init__(self, clients=2, locks=('L',), depth=8, faults=1, prolongs=2, timesteps=3):
+    def __init__(self, clients=2, locks=('L',), depth=8, faults=1, prolongs=2, timesteps=3, prefix=()):
         self.nc = clients
         self.locks = locks
         self.depth = depth
         self.faults = faults
         self.prolongs = prolongs
         self.timesteps = timesteps
+        self.prefix = tuple(tuple(e) for e in prefix)
         self.builds = 0
         self._cache = None
 
@@ -211,7 +212,7 @@ class LockModel(object):
 
     # -- Model interface (state = history tuple)
     def initial(self):
-        return ()
+        return self.prefix
 
     def key_of_world(self, w):
         impls = []
@@ -380,6 +381,16 @@ def jobs_for(tier):
         ('locks:c3:f0p1t1', dict(clients=3, depth=d - 1 if q else d, faults=0, prolongs=1, timesteps=1)),
         ('locks:c2:2locks:f0p1t1', dict(clients=2, locks=('L', 'M'), depth=d - 1 if q else d, faults=0, prolongs=1, timesteps=1)),
     ]
+    if not q:
+        # thorough: one job per first event (the searches share nothing but the empty history), so that all cores work
+        out = []
+        for n, kw in js:
+            firsts = LockModel(**kw).events(())
+            for ev in firsts:
+                if ev[0] in ('acq', 'rel', 'prolong') and ev[1] != 0:
+                    continue      # clients are interchangeable: a first event of client 1 is the mirror image of client 0's
+                out.append(('%s>%s' % (n, '/'.join(str(x) for x in ev)), dict(kw, prefix=(ev,))))
+        return out
     return js
 
 
